@@ -192,6 +192,9 @@ type RecordingWriter struct {
 	FailAt   int // -1: never fail
 	Err      error
 	Accepted int
+	// ErrWhenFull: report Err also on the write that brings the total to
+	// exactly FailAt bytes, although that write was accepted in full.
+	ErrWhenFull bool
 }
 
 func NewWriter() *RecordingWriter { return &RecordingWriter{FailAt: -1} }
@@ -210,6 +213,11 @@ func (w *RecordingWriter) Write(p []byte) (int, error) {
 	if len(p) <= room {
 		w.Buf = append(w.Buf, p...)
 		w.Accepted += len(p)
+		if w.ErrWhenFull && w.Accepted == w.FailAt {
+			// everything offered was accepted, and yet the write failed
+			// (a tee whose mirror failed, a flush error, a deadline)
+			return len(p), w.Err
+		}
 		return len(p), nil
 	}
 	w.Buf = append(w.Buf, p[:room]...)
@@ -225,6 +233,15 @@ type WrappedErr struct{ Inner error }
 
 func (e *WrappedErr) Error() string { return "wrapped: " + e.Inner.Error() }
 func (e *WrappedErr) Unwrap() error { return e.Inner }
+
+// EOFWrappingErr is a transport failure that identifies as ErrInjected and
+// has io.EOF in its unwrap chain (as a TLS or proxy layer reporting
+// "read: ... EOF" does).
+type EOFWrappingErr struct{}
+
+func (EOFWrappingErr) Error() string        { return "verif: transport: read failed: EOF" }
+func (EOFWrappingErr) Is(target error) bool { return target == ErrInjected }
+func (EOFWrappingErr) Unwrap() error        { return io.EOF }
 
 // ---------------------------------------------------------------- meter
 
